@@ -7,6 +7,7 @@ import (
 	"fmt"
 	"io"
 	"net"
+	"runtime"
 	"strings"
 	"sync"
 	"time"
@@ -37,7 +38,7 @@ func init() {
 		Shards:    shards(8, 16),
 		Timeout:   timeouts(4*time.Minute, 40*time.Minute),
 		MinEvals:  300,
-		Required:  []string{"method:Auth", "method:Attach", "method:Walk", "method:Open", "method:Create", "method:Read", "method:Write", "method:Stat", "method:WStat", "method:Clunk", "method:Remove", "error_results", "clipped_reads", "clipped_writes", "walk_limit_local", "concurrent_cells", "concurrent_calls_own_result"},
+		Required:  []string{"method:Auth", "method:Attach", "method:Walk", "method:Open", "method:Create", "method:Read", "method:Write", "method:Stat", "method:WStat", "method:Clunk", "method:Remove", "error_results", "clipped_reads", "clipped_writes", "walk_limit_local", "concurrent_cells", "concurrent_calls_own_result", "abandon_cells", "wrap_cells"},
 		Run:       runC09,
 	})
 }
@@ -73,10 +74,11 @@ type recSession struct {
 	calls []recCall
 	next  recResult
 	// concurrent mode: results are derived from the fid (= uid) instead of next
-	byUID  bool
-	hold   chan struct{} // if non-nil, every call waits on it (to force overlap)
-	inCall int
-	maxIn  int
+	byUID   bool
+	hold    chan struct{} // if non-nil, every call waits on it (to force overlap)
+	holdFid p9p.Fid       // if non-zero, only the call on this fid waits
+	inCall  int
+	maxIn   int
 }
 
 func (s *recSession) rec(c recCall) recResult {
@@ -88,6 +90,9 @@ func (s *recSession) rec(c recCall) recResult {
 		s.maxIn = s.inCall
 	}
 	hold := s.hold
+	if s.holdFid != 0 && c.fid != s.holdFid {
+		hold = nil
+	}
 	s.mu.Unlock()
 	if hold != nil {
 		<-hold
@@ -298,6 +303,18 @@ func runC09(w *mon.W) {
 	if pair != nil {
 		pair.close()
 		pair = nil
+	}
+	// ---- an abandoned call answered late must not stall the other callers
+	for i := 0; i < w.Scale(16, 400); i++ {
+		if w.Mine(i) {
+			c09Abandon(w, 2+w.Rng.Intn(6))
+		}
+	}
+	// ---- a call pending across a wrap of the 16-bit tag space (one shard per run; thorough: several)
+	for i := 0; i < w.Scale(1, 4)*w.NShards; i++ {
+		if w.Mine(i) && (w.Thorough() || i == 0) {
+			c09Wrap(w)
+		}
 	}
 	// ---- concurrent part
 	cells := 0
@@ -835,4 +852,184 @@ func isFlowControlDeadlock(dump string) bool {
 	}
 	// the two writers must be inside WriteFcall
 	return strings.Count(dump, "(*channel).WriteFcall(") >= 2
+}
+
+// c09Abandon: callers are held inside S; one abandons its call (context cancelled); S then
+// answers everybody, the abandoned call included. Every other caller must obtain its own
+// result, and the session must keep working afterwards.
+func c09Abandon(w *mon.W, n int) {
+	desc := fmt.Sprintf("abandon cell: %d callers inside S, caller 0 cancels, S answers all", n)
+	w.Case("C09 %s", desc)
+	p, err := newC09Pair(1<<20, 0)
+	if err != nil {
+		w.Inconclusive("pair: %v", err)
+		return
+	}
+	defer p.close()
+	w.Eval()
+	w.Count("abandon_cells", 1)
+	p.S.byUID = true
+	hold := make(chan struct{})
+	p.S.mu.Lock()
+	p.S.hold = hold
+	p.S.mu.Unlock()
+	type res struct {
+		name string
+		err  error
+		done bool
+	}
+	results := make([]res, n)
+	var mu sync.Mutex
+	var wg sync.WaitGroup
+	cctx, cancel := context.WithCancel(context.Background())
+	for i := 0; i < n; i++ {
+		wg.Add(1)
+		go func(i int) {
+			defer wg.Done()
+			ctx := context.Background()
+			if i == 0 {
+				ctx = cctx
+			}
+			st, err := p.cli.Stat(ctx, p9p.Fid(100+i))
+			mu.Lock()
+			results[i] = res{st.Name, err, true}
+			mu.Unlock()
+		}(i)
+	}
+	if !settle() {
+		cancel()
+		close(hold)
+		return
+	}
+	cancel() // caller 0 gives up while its call is inside S
+	if !settle() {
+		close(hold)
+		return
+	}
+	mu.Lock()
+	if !results[0].done || results[0].err == nil {
+		mu.Unlock()
+		close(hold)
+		w.Violate("hang", "C09:abandon:cancelled-call-did-not-return", desc+": the cancelled call did not return", nil)
+		return
+	}
+	mu.Unlock()
+	close(hold) // S answers all calls now, the abandoned one included
+	done := make(chan struct{})
+	go func() { wg.Wait(); close(done) }()
+	if q := mon.AwaitQuiesce(done); q.Hung {
+		w.Violate("hang", "C09:abandon:others-stalled:"+q.Sites, fmt.Sprintf("%s: after the abandoned call was answered late the other callers never complete; blocked at %s", desc, q.Sites), map[string]interface{}{"goroutines": mon.TrimDump(q.Dump, 8000)})
+		return
+	} else if q.Inconclusive {
+		w.Inconclusive("watchdog: %s", desc)
+		return
+	}
+	mu.Lock()
+	for i := 1; i < n; i++ {
+		if results[i].err != nil || results[i].name != fmt.Sprintf("uid-%d", 100+i) {
+			w.Violate("mismatch", "C09:abandon:crossed-or-lost-result", fmt.Sprintf("%s: caller %d got name=%q err=%v", desc, i, results[i].name, results[i].err), nil)
+			mu.Unlock()
+			return
+		}
+	}
+	mu.Unlock()
+	// the session still works
+	p.S.mu.Lock()
+	p.S.hold = nil
+	p.S.mu.Unlock()
+	fin := make(chan struct{})
+	var st p9p.Dir
+	var serr error
+	go func() { st, serr = p.cli.Stat(context.Background(), 999); close(fin) }()
+	if q := mon.AwaitQuiesce(fin); q.Hung {
+		w.Violate("hang", "C09:abandon:session-dead-afterwards:"+q.Sites, desc+": a later call never returns; blocked at "+q.Sites, nil)
+		return
+	}
+	if serr != nil || st.Name != "uid-999" {
+		w.Violate("mismatch", "C09:abandon:later-call", fmt.Sprintf("%s: a later call returned %q err=%v", desc, st.Name, serr), nil)
+		return
+	}
+	w.NT(fmt.Sprintf("abandon/%d", n))
+}
+
+// c09Wrap: one call stays pending inside S while more than 65535 further calls are made
+// on the same client session; every one of them, and finally the pending one, must get its
+// own result. The pending call is the one issued when the tag counter wraps (the 65535th).
+func c09Wrap(w *mon.W) {
+	desc := "wrap cell: the 65535th call stays pending inside S while 66000 more calls are made"
+	w.Case("C09 %s", desc)
+	p, err := newC09Pair(1<<20, 0)
+	if err != nil {
+		w.Inconclusive("pair: %v", err)
+		return
+	}
+	defer p.close()
+	w.Eval()
+	w.Count("wrap_cells", 1)
+	p.S.byUID = true
+	ctx := context.Background()
+	call := func(uid int) bool {
+		q, _, err := p.cli.Open(ctx, p9p.Fid(uid), p9p.OREAD)
+		if err != nil || q != uidQid(p9p.Fid(uid)) {
+			w.Violate("mismatch", "C09:wrap:crossed-or-lost-result", fmt.Sprintf("%s: call #%d returned %v err=%v", desc, uid, q, err), nil)
+			return false
+		}
+		return true
+	}
+	fin := make(chan struct{})
+	ok := true
+	var pendErr error
+	var pendQ p9p.Qid
+	pendDone := make(chan struct{})
+	hold := make(chan struct{})
+	go func() {
+		defer close(fin)
+		for i := 1; i <= 65534 && ok; i++ {
+			ok = call(i)
+		}
+		if !ok {
+			return
+		}
+		p.S.mu.Lock()
+		p.S.hold, p.S.holdFid = hold, 65535
+		p.S.mu.Unlock()
+		go func() {
+			pendQ, _, pendErr = p.cli.Open(ctx, 65535, p9p.OREAD)
+			close(pendDone)
+		}()
+		// wait until the pending call is inside S
+		for k := 0; k < 1000000; k++ {
+			p.S.mu.Lock()
+			in := p.S.inCall
+			p.S.mu.Unlock()
+			if in > 0 {
+				break
+			}
+			runtime.Gosched()
+		}
+		for i := 70000; i < 70000+66000 && ok; i++ {
+			ok = call(i)
+		}
+	}()
+	q := mon.AwaitQuiesceLong(fin, 20*time.Minute)
+	if q.Hung {
+		w.Violate("hang", "C09:wrap:hang:"+q.Sites, fmt.Sprintf("%s: the callers stall; blocked at %s", desc, q.Sites), map[string]interface{}{"goroutines": mon.TrimDump(q.Dump, 8000)})
+		close(hold)
+		return
+	}
+	if q.Inconclusive || !ok {
+		close(hold)
+		return
+	}
+	close(hold)
+	if q := mon.AwaitQuiesce(pendDone); q.Hung {
+		w.Violate("hang", "C09:wrap:pending-call-lost", desc+": the long-pending call never returns although S answered it; blocked at "+q.Sites, nil)
+		return
+	}
+	if pendErr != nil || pendQ != uidQid(65535) {
+		w.Violate("mismatch", "C09:wrap:crossed-or-lost-result", fmt.Sprintf("%s: the long-pending call returned %v err=%v", desc, pendQ, pendErr), nil)
+		return
+	}
+	w.Count("wrap_calls", 65535+66000)
+	w.NT("wrap")
 }
